@@ -129,6 +129,12 @@ class FakeScalesSocket(object):
 
 def install():
     import scales.scales_socket as ss
-    ss.gsocket = lambda family, type_: Conn()
+    def fake_gsocket(family, type_):
+        # what the kernel does for the one address the fake resolver returns: (AF_INET, SOCK_STREAM) gives a socket,
+        # anything else is refused the way socket(2) refuses it
+        if (family, type_) != (2, 1):
+            raise _socket.error(94, 'Socket type not supported')
+        return Conn()
+    ss.gsocket = fake_gsocket
     ss.ScalesSocket._resolveAddr = lambda self: [(2, 1, 6, '', (self.host, self.port))]
     NET.connect_delay = 0
